@@ -32,7 +32,11 @@ def run(ctx):
     ron = ctx.rule('R-ONENODE', 'a combinator callback node is registered on at most one shared input (a shared core links its subscribers through the node\'s next pointer)', minimum=4)
     rbr = ctx.rule('R-BRIDGE', 'Share / Split hand the source they were given and the promise of the contract they make to Connect on every path', minimum=4)
     rsa = ctx.rule('R-SETARGS', 'Set(args...) of the promise stores exactly its arguments, forwarded in order; Set() stores the value with std::in_place', minimum=3)
+    rfr = ctx.rule('R-FACTORYREFS', 'a factory of a shared state builds every handle on the fresh core as an adopting one, and the initial count is kSharedRefNoFuture plus the future handles it hands out', minimum=4)
     for cfg, fb in sorted(fbs.items()):
+        from rules import lib_factory
+        if (ctx.guard(lambda: lib_factory.check_factory_refs(ctx, fb, rfr)) or 0) < 4:
+            ctx.guard(lambda: ctx.broken('R-FACTORYREFS: the shared factories are not instantiated in %s' % cfg))
         from rules import lib_promise
         if (ctx.guard(lambda: lib_promise.check_set_args(ctx, fb, rsa, ('yaclib::SharedPromise',))) or 0) < 3:
             ctx.guard(lambda: ctx.broken('R-SETARGS: Set of the promise is not instantiated in %s' % cfg))
